@@ -236,6 +236,9 @@ pub struct TxSpec {
     pub out_witness: bool,
     /// largest script / witness item
     pub max_blob: usize,
+    /// Some(n): the n-th real transaction of the repository's own vectors instead of a generated one
+    #[serde(default)]
+    pub corpus: Option<u32>,
 }
 
 impl TxSpec {
@@ -256,7 +259,24 @@ impl TxSpec {
             in_witness: p.chance(1, 2),
             out_witness: p.chance(1, 2),
             max_blob: if many_in || many_out { 40 } else { *p.pick(&[40usize, 300, 300, 70_000]) },
+            corpus: None,
         }
+    }
+    /// like `draw`, but one run in `one_in` takes a real transaction from the repository's vectors
+    pub fn draw_with_corpus(p: &mut Prng, max_in: usize, max_out: usize, one_in: u64) -> TxSpec {
+        let mut s = TxSpec::draw(p, max_in, max_out);
+        let n = p.u32();
+        if p.chance(1, one_in) {
+            if let Some(Ok(t)) = crate::corpus::tx(n) {
+                // no coinbase vectors here: the worlds that take this path exclude coinbase inputs
+                if !t.is_coinbase() {
+                    s.corpus = Some(n);
+                    s.n_in = t.input.len();
+                    s.n_out = t.output.len();
+                }
+            }
+        }
+        s
     }
     /// simpler variants for the minimiser
     pub fn shrinks(&self) -> Vec<TxSpec> {
@@ -266,6 +286,7 @@ impl TxSpec {
                 v.push(s)
             }
         };
+        push(TxSpec { corpus: None, ..self.clone() });
         push(TxSpec { n_in: self.n_in / 2, ..self.clone() });
         push(TxSpec { n_out: self.n_out / 2, ..self.clone() });
         push(TxSpec { n_in: self.n_in.saturating_sub(1), ..self.clone() });
@@ -353,6 +374,13 @@ pub fn txout(p: &mut Prng, s: &TxSpec, with_witness: bool) -> TxOut {
 }
 
 pub fn tx(s: &TxSpec) -> Transaction {
+    if let Some(n) = s.corpus {
+        // a vector the changed library no longer decodes is reported by world `codec` (C01.rtt corpus|rejected);
+        // elsewhere the generated transaction takes its place
+        if let Some(Ok(t)) = crate::corpus::tx(n) {
+            return t;
+        }
+    }
     let mut p = Prng::from_u64(s.seed);
     let version = match p.below(4) {
         0 => 1,
@@ -369,7 +397,7 @@ pub fn tx(s: &TxSpec) -> Transaction {
 /// spent outputs matching a transaction's inputs (for sighash worlds): arbitrary but fixed
 pub fn prevouts(seed: u64, n: usize, confidential: bool) -> Vec<TxOut> {
     let mut p = Prng::from_u64(seed ^ 0x50_52_45_56);
-    let s = TxSpec { seed, n_in: 0, n_out: n, coinbase: false, pegin: false, issuance: false, confidential, in_witness: false, out_witness: true, max_blob: 60 };
+    let s = TxSpec { seed, n_in: 0, n_out: n, coinbase: false, pegin: false, issuance: false, confidential, in_witness: false, out_witness: true, max_blob: 60, corpus: None };
     (0..n).map(|_| txout(&mut p, &s, true)).collect()
 }
 
